@@ -332,7 +332,11 @@ def run_route(case, route, x, with_opts=True):
         for name, key in (('imf_opts', 'imf'), ('envelope_opts', 'env'), ('extrema_opts', 'ext')):
             if u[key] is not None:
                 for k2, v2 in u[key].items():
-                    cfg[name + '/' + k2] = v2
+                    # both documented ways of setting an option of a configuration object: the slash key and nested indexing
+                    if case.get('seed', 0) % 2:
+                        cfg[name][k2] = v2
+                    else:
+                        cfg[name + '/' + k2] = v2
         if route == 'unpack':
             call = lambda xx: func(xx, **cfg)  # noqa
             sift_func, sift_args = func, dict(cfg)
